@@ -241,14 +241,14 @@ def check(ctx):
     quick = ctx.tier == 'quick'
     sr = rng(PROP, 'select')
     ctx.rule = ('(a) scalar sweep: blocks of %d scalar values in a block comment, a // comment, string literals and identifiers, formatted in 4 encodings '
-                '(quick: seeded 1/8 of the blocks + boundary blocks; thorough: all %d blocks); (b) corpus texts transcoded to 4 encodings; '
+                '(quick: seeded 1/2 of the blocks + boundary blocks; thorough: all %d blocks); (b) corpus texts transcoded to 4 encodings; '
                 '(c) utf8_bom x utf8_force x input encoding table; (d) invalid sequences in 4 positions; '
                 'non-trivial = distinct case whose UTF-8 reference run is accepted and changes the bytes' % (BLOCK, (NSCALARS + BLOCK - 1) // BLOCK))
     nblocks = (NSCALARS + BLOCK - 1) // BLOCK
     if quick:
         boundary = {0, 1, 0x7ff // BLOCK, 0xd7ff // BLOCK, (0xe000 - 0x800) // BLOCK, (0xfeff - 0x800) // BLOCK, (0xffff - 0x800) // BLOCK,
                     (0x10000 - 0x800) // BLOCK, (0x1ffff - 0x800) // BLOCK, (0x2028 // BLOCK), nblocks - 1}
-        blocks = sorted(boundary | set(sr.sample(range(nblocks), nblocks // 8)))
+        blocks = sorted(boundary | set(sr.sample(range(nblocks), nblocks // 2)))
     else:
         blocks = list(range(nblocks))
     ctx.exhaustive = not quick
@@ -263,7 +263,7 @@ def check(ctx):
             ctx.violation(kind, desc, files={'input.cpp': sweep_text(r['block'])[0]})
     ctx.counters['sweep_scalars_covered'] = total_scalars
     files = corpus.files()
-    sel = sr.sample(files, 250) if quick else files
+    sel = sr.sample(files, 600) if quick else files
     for r in pmap(_corpus, [(rel, lang, sr.choice(sorted(CONFIGS))) for rel, lang in sel]):
         if r['skip']:
             ctx.count('corpus_skipped_' + r['skip'])
